@@ -25,10 +25,11 @@ HARNESSES = {
     'K16': {'pre': [('close', ())], 'threads': [[('send_text', 'late')]], 'loop': 1, 'loop_close': True,     # the consumer abandons the loop
             'steps': [SFrame(TEXT, b'x').encode()]},                                                          # at a message while closing
     'K17': {'threads': [[('send_text', 'at unresponsive')]], 'loop': 4, 'connect': {'ping_timeout': 7}},
+    'K18': {'threads': [[('close', (1000, b'caf\xc3'))], [('send_text', 'racing a bytes reason'), ('close', ())]]},
     'K9': {'threads': [[('send_text', 'pre'), ('close', (1001, 'x'))], [('send_binary', b'\xaa'), ('close', ())]]},
 }
-BOUNDS = {'quick': {'K1': 2, 'K2': 2, 'K3': 1, 'K4': 1, 'K5': 1, 'K6': 1, 'K7': 1, 'K8': 1, 'K9': 1, 'K10': 1, 'K11': 1, 'K12': 1, 'K13': 1, 'K14': 1, 'K15': 1, 'K16': 1, 'K17': 1},
-          'thorough': {'K1': 3, 'K2': 3, 'K3': 2, 'K4': 2, 'K5': 2, 'K6': 2, 'K7': 2, 'K8': 2, 'K9': 2, 'K10': 2, 'K11': 2, 'K12': 2, 'K13': 2, 'K14': 2, 'K15': 2, 'K16': 2, 'K17': 2}}
+BOUNDS = {'quick': {'K1': 2, 'K2': 2, 'K3': 1, 'K4': 1, 'K5': 1, 'K6': 1, 'K7': 1, 'K8': 1, 'K9': 1, 'K10': 1, 'K11': 1, 'K12': 1, 'K13': 1, 'K14': 1, 'K15': 1, 'K16': 1, 'K17': 1, 'K18': 1},
+          'thorough': {'K1': 3, 'K2': 3, 'K3': 2, 'K4': 2, 'K5': 2, 'K6': 2, 'K7': 2, 'K8': 2, 'K9': 2, 'K10': 2, 'K11': 2, 'K12': 2, 'K13': 2, 'K14': 2, 'K15': 2, 'K16': 2, 'K17': 2, 'K18': 2}}
 PARTS = 16
 CLOSURE = {'quick': ['K1'], 'thorough': ['K1', 'K2', 'K3', 'K4', 'K6', 'K7', 'K8', 'K9', 'K11']}      # harnesses searched over *all* interleavings (lv.sched_closure)
 
